@@ -126,11 +126,14 @@ Section Scene.
   Definition r_factor (r : receiver) (k : nat) : T :=
     if nthb (r_vis r) k then nthT (r_share r) k else 0%T.
 
-  (** [collect_energy_receiver_patchwise] for one receiver: [k][b][t] *)
+  (** [collect_energy_receiver_patchwise] for one receiver: [k][b][t].
+      The code delays with [np.roll]: energy delayed beyond the histogram end re-appears
+      at its start (known finding C02/receiver-wrap; the repair breaks 5 tests of the
+      pinned suite that use a 1-bin histogram as an energy integrator). *)
   Definition patchwise (tm : timing) (E : arr4) (r : receiver) : arr3 :=
     let N := n_samples tm in
     tab (s_np sc) (fun k => tab (s_nb sc) (fun b =>
-      shift_trunc N (delay_ceil (r_dist r k) (t_c tm) (t_dt tm))
+      roll N (delay_ceil (r_dist r k) (t_c tm) (t_dt tm))
         (tab N (fun t => ((get4 E k (r_out_index r k) b t * r_factor r k) * attn b (r_dist r k))%T)))).
 
   (** sum over patches ([np.sum(axis=1)], sequential in k) *)
